@@ -1108,6 +1108,13 @@ class Terms:
             return ("const", v)
         if op["k"] in ("copy", "move"):
             l, p = norm_place(op["place"])
+            if getattr(self, "indexed", False):
+                # opt-in: an element read `base[i]` keeps its index:  ("elem_at", base term, index term)
+                pj = [e for e in op["place"]["p"] if e["k"] != "deref"]
+                if pj and pj[-1]["k"] in ("index", "cindex") and not any(e["k"] in ("index", "cindex", "subslice") for e in pj[:-1]) and not (pj[-1]["k"] == "cindex" and pj[-1].get("from_end")):
+                    base = self.place(l, p[:-1], bb, idx, depth + 1)
+                    it = self.place(pj[-1]["l"], (), bb, idx, depth + 1) if pj[-1]["k"] == "index" else ("const", pj[-1]["offset"])
+                    return ("elem_at", base, it)
             return self.place(l, p, bb, idx, depth)
         return ("opaque", op.get("s", "?"))
 
